@@ -864,7 +864,7 @@ def run_check(mod, tier, seed, only_relations=None):
             raise HarnessError(f"haptools imported from {haptools.__file__}, not from {REPO}")
         # ---- proof gate
         gate_problems = source_gate()
-        ok, log = build(mod.COQ_MODULES)
+        ok, log = build(list(mod.COQ_MODULES) + [mod.PROPERTY_MODULE])
         if not ok:
             gate_problems.append("build failed: " + log[-1500:])
         pinfo = {"ok": False, "theorems": [], "unprinted": [], "log": ""}
@@ -1115,12 +1115,12 @@ def replay(path, mods):
     data = json.load(open(path))
     mod = mods[data["property"]]
     if data.get("kind") == "proof-obligation-broken":
-        ok, log = build(mod.COQ_MODULES)
+        ok, log = build(list(mod.COQ_MODULES) + [mod.PROPERTY_MODULE])
         pinfo = check_property_file(mod.PROPERTY_MODULE, set(getattr(mod, "ALLOWED_AXIOMS", []))) if ok else {"ok": False}
         print("proof gate:", "green" if ok and pinfo["ok"] else "red")
         return 0 if ok and pinfo["ok"] else 1
     rel = [r for r in mod.RELATIONS if r.name == data["relation"]][0]
-    ok, log = build(mod.COQ_MODULES)
+    ok, log = build(list(mod.COQ_MODULES) + [mod.PROPERTY_MODULE])
     if not ok:
         print("HARNESS-ERROR build failed", log[-800:])
         return 2
